@@ -54,7 +54,11 @@ func (w *dWorld) exec2(cmd []string) (string, string) {
 	case "#api.phase":
 		if p := w.api.rawPod(cmd[1]); p != nil {
 			p.Status.Phase = corev1.PodPhase(cmd[2])
-			_ = w.api.cl.Update(context.Background(), p)
+			// the phase lives in the status subresource: a plain Update would silently drop it
+			_ = w.api.cl.Status().Update(context.Background(), p)
+			if q := w.api.rawPod(cmd[1]); q == nil || string(q.Status.Phase) != cmd[2] {
+				w.c.Violate(w.focus+"/harness/pod-phase-not-written", "the fake API server did not take the pod phase "+cmd[2])
+			}
 		}
 		return strings.Join(cmd, " "), "#"
 	case "#api.err":
@@ -489,6 +493,8 @@ func (w *dWorld) monitorRequest(kind, p, cid, view string, inflight bool, pre, p
 			r, ok := post.db[p]
 			if !ok || r.cid != cid || idsStr(r.ips) != idsStr(rep.ips) {
 				w.violate("C04/add/record-mismatch", fmt.Sprintf("ADD of %s answered %v but the record is %v", p, rep.ips, post.db[p]))
+				// the same fact is what a restart relies on (C05: an acknowledged ADD is recorded, with its sandbox)
+				w.violate("C05/ack/record-mismatch", fmt.Sprintf("ADD of %s for sandbox %s was acknowledged with %v but the stored record is %v: a restart (or the late DEL of the old sandbox) works from that record", p, cid, rep.ips, post.db[p]))
 			} else {
 				for _, e := range entriesBefore(post, r.eni, r.ips) {
 					if e.owner != p {
